@@ -1,6 +1,8 @@
 """C06 — regions stay canonical; equal() is set equality."""
 from checks import regioncommon as rc
 
+BRIDGE = ["Pixman.Props.RegionBridge." + n for n in ("extentCheck_bridge", "inBox_bridge", "subsumes_bridge", "goodRect_bridge", "badRect_bridge", "limits_bridge")]
+
 REQUIRED = [
     "Pixman.Props.C06.init_not_mem",
     "Pixman.Props.C06.canonListB_iff",
@@ -26,7 +28,7 @@ REQUIRED = [
 
 
 def run(ctx):
-    broken = ctx.lean_obligations("Pixman.Props.C06", REQUIRED)
+    broken = ctx.lean_obligations("Pixman.Props.C06", REQUIRED + BRIDGE, extra_modules=["Pixman.Props.RegionBridge"])
     quick = ctx.tier == "quick"
     findings = rc.run_streams(ctx, "C06", 150000 if quick else 1500000, 4 if quick else 16)
     rc.report(ctx, findings)
